@@ -17,6 +17,10 @@ def main():
     p, i = sys.argv[1], sys.argv[2]
     checks = sys.argv[3:]
     P = p.upper()
+    store_i = i
+    if p[-1] in "bcd":   # later rounds: c06b -> property C06, stored as C06-3, C06-4, ...
+        P = p[:-1].upper()
+        store_i = str(int(i) + 2 * (ord(p[-1]) - ord("a")))
     src = f"/tmp/seed-{p}-out"
     meta = json.load(open(f"{src}/meta{i}.json"))
     patch = f"{src}/change{i}.diff"
@@ -58,7 +62,7 @@ def main():
                        "first_problems": [l[:300] for l in lines if "problem [" in l][:3]}
         print(c, "->", "VIOLATION" if v else "not detected", v[:1], *[l[:260] for l in lines if "problem [" in l][:2], sep="\n   ")
     if confirmed:
-        d = f"/verif/seeded/{P}-{i}"
+        d = f"/verif/seeded/{P}-{store_i}"
         os.makedirs(d, exist_ok=True)
         shutil.copy(patch, f"{d}/patch.diff")
         shutil.copy(demo, f"{d}/demo.rs")
